@@ -131,10 +131,21 @@ def check_text(mode, pats, ex, fs, res):
 ESC_ALPHA = '*?[]()|{}\\/.~-!a\n'
 
 
+def _drive_strings():
+    from . import c09
+    out = []
+    for sh in c09.DRIVE_SHAPES + ['c:\\\\file.txt', 'c:\\\\', '\\\\\\\\h\\\\s\\\\x', 'c:/a\\\\b', '//h/s\\\\']:
+        out.append(sh)
+        out.append(sh.replace('/', '\\'))
+    return sorted(set(out))
+
+
 def check_escape(maxlen, res, sh, ns):
     k = 0
-    for L in range(1, maxlen + 1):
-        for tup in itertools.product(ESC_ALPHA, repeat=L):
+    todo = [tup for L in range(1, maxlen + 1) for tup in itertools.product(ESC_ALPHA, repeat=L)]
+    todo += [tuple(x) for x in _drive_strings() if all(ord(c) < 256 for c in x)]
+    for _ in (0,):
+        for tup in todo:
             k += 1
             if k % ns != sh:
                 continue
@@ -347,9 +358,11 @@ def check_raw(first, maxlen, res):
 # bytes), Latin-1 members, and `!(` under NEGATE: forms the generated menus do not contain
 ODD_PATS = ['[z-a]', '[!z-a]', '[^z-a]', 'x[!b-a]*', '[!z-ab-a]', '[z-a\xe9]', '[!z-a\xe9]', '[\xe9-\xff]', '[!\xe9]', '\xe9*',
             '[[:alpha:]\xe9]', '[![:alpha:]]', '@([z-a]|a)', '@([!z-a])', '!([z-a])', '!(a)', '!(a|b)', '!(a)|!c', '-(a)', '!\\(a)',
-            '[!z-a]/[z-a]', '**/[!z-a]', '?', '[!\x80-\xff]', '[\x00-\x7f]', '+([!z-a])']
-ODD_FN_FLAGS = ['E', 'DE', 'NE', 'NDE', 'NME', 'NES', 'NEA', '']
-ODD_GL_FLAGS = ['GE', 'GDE', 'GNE', 'GNDE', 'GNME', 'GNES', 'GNEA', 'GEO']
+            '[!z-a]/[z-a]', '**/[!z-a]', '?', '[!\x80-\xff]', '[\x00-\x7f]', '+([!z-a])',
+            # escaped slashes / backslashes, which the Windows rules rewrite before parsing
+            'a\\/b', '@(a\\/b)', 'a\\\\b', '@(a\\\\b|c)', '[\\/]', '*\\/', 'a\\/\\/b']
+ODD_FN_FLAGS = ['E', 'DE', 'NE', 'NDE', 'NME', 'NES', 'NEA', '', 'EW', 'DEW']
+ODD_GL_FLAGS = ['GE', 'GDE', 'GNE', 'GNDE', 'GNME', 'GNES', 'GNEA', 'GEO', 'GEW', 'GDEW']
 TEXT_FN_FLAGS = ['E', 'DE', 'EI', 'ER', 'EW', '', 'DEC']
 TEXT_GL_FLAGS = ['GE', 'GDE', 'GXE', 'GEZ', 'GEO', 'GEW', 'GLEI', 'GER']
 
@@ -449,8 +462,6 @@ def run_chunk(chunk):
     elif kind == 'odd':
         for p in ODD_PATS:
             for mode, fsets in (('fn', ODD_FN_FLAGS), ('glob', ODD_GL_FLAGS)):
-                if mode == 'fn' and '/' in p:
-                    continue
                 for fs in fsets:
                     check_text(mode, p, None, fs, res)
         res.samples.append({'odd': ODD_PATS[:4]})
